@@ -388,5 +388,124 @@ def rule_drv(repo, tier):
     return res
 
 
+
+
+# ---------------------------------------------------------------- CLAUSE: exact form of the documented stopping clauses
+
+def _walk_tests(f):
+    for n in ast.walk(f.node):
+        if isinstance(n, ast.If):
+            yield n
+
+
+def rule_clause(repo, tier):
+    from ..expr import parities
+    res = RuleResult('C20.CLAUSE', 'the documented stopping clauses have their documented form: StopOnPlateau stops as soon as the last '
+                     'optimizer step involved any rejection (reject_count >= 1); ReduceToBason stops when ALL losses are below tol; the '
+                     'patience counter grows when (previous - current) loss is below `decreasing` (previous with even, current with odd parity)',
+                     floor=4)
+    # rejection clause
+    f = repo.find_method(repo.cls(SCHED, 'StopOnPlateau'), 'step')
+    hit = 0
+    for n in _walk_tests(f):
+        t = n.test
+        if any(isinstance(x, ast.Attribute) and x.attr == 'reject_count' for x in ast.walk(t)) and isinstance(t, (ast.Compare, ast.UnaryOp)):
+            hit += 1
+            names = {}
+            for x in ast.walk(t):
+                if isinstance(x, ast.Attribute) and x.attr == 'reject_count':
+                    names[dotted(x)] = 'S'
+            off = None
+            cmp_ = t
+            truth = True
+            while isinstance(cmp_, ast.UnaryOp) and isinstance(cmp_.op, ast.Not):
+                cmp_, truth = cmp_.operand, not truth
+            ok = False
+            if isinstance(cmp_, ast.Compare) and len(cmp_.ops) == 1:
+                l, r = _lin(cmp_.left, names), _lin(cmp_.comparators[0], names)
+                if l is not None and r is not None:
+                    d = dict(l)
+                    for k, v in r.items():
+                        d[k] = d.get(k, 0) - v
+                    s, c = d.get('S', 0), d.get('c', 0)
+                    op = cmp_.ops[0]
+                    # normalise to  S >= k  (integers) on the branch that clears the latch
+                    k = None
+                    if s == 1:
+                        k = {ast.Gt: -c + 1, ast.GtE: -c, ast.NotEq: (1 if c == 0 else None)}.get(type(op))
+                    elif s == -1:
+                        k = {ast.Lt: c + 1, ast.LtE: c}.get(type(op))
+                    ok = truth and k == 1
+            res.inst({'function': f.fq, 'clause': src(t), 'fires_on_first_rejection': ok}, 'rej')
+            if not ok:
+                res.add(Finding('C20.CLAUSE', f, 'rejection clause `%s` is not equivalent to reject_count >= 1: a step that was rejected at least '
+                                'once (but not as often as the clause demands) no longer stops the scheduler' % src(t), node=n.test))
+    if hit == 0:
+        res.add(Finding('C20.CLAUSE', f, 'StopOnPlateau.step has no clause on optimizer.reject_count', construct='rej missing'))
+    # tol clause
+    g = repo.find_method(repo.cls(STEP, 'ReduceToBason'), 'step')
+    hit = 0
+    for n in _walk_tests(g):
+        t = n.test
+        if any(dotted(x) == 'self.tol' for x in ast.walk(t)):
+            hit += 1
+            ok = False
+            c = t
+            if isinstance(c, ast.Call) and (dotted(c.func) in ('torch.all', 'all') or (isinstance(c.func, ast.Attribute) and c.func.attr == 'all')):
+                inner = c.args[0] if c.args else c.func.value
+                if isinstance(inner, ast.Compare) and len(inner.ops) == 1:
+                    l, r, op = inner.left, inner.comparators[0], inner.ops[0]
+                    ok = (isinstance(op, (ast.Lt, ast.LtE)) and dotted(l) == 'loss' and dotted(r) == 'self.tol') or \
+                         (isinstance(op, (ast.Gt, ast.GtE)) and dotted(r) == 'loss' and dotted(l) == 'self.tol')
+            res.inst({'function': g.fq, 'clause': src(t), 'all_losses_below_tol': ok}, 'tol')
+            if not ok:
+                res.add(Finding('C20.CLAUSE', g, 'tol clause `%s` is not `all(loss < tol)`' % src(t), node=n.test))
+    if hit == 0:
+        res.add(Finding('C20.CLAUSE', g, 'ReduceToBason.step has no clause on self.tol', construct='tol missing'))
+    # improvement direction of the patience test
+    for cls_, mod, prev, cur in (('StopOnPlateau', SCHED, 'self.optimizer.last', 'self.optimizer.loss'), ('ReduceToBason', STEP, 'self.last', 'loss')):
+        h = repo.find_method(repo.cls(mod, cls_), 'step')
+        found = False
+        for n in _walk_tests(h):
+            t = n.test
+            if not any(dotted(x) == 'self.decreasing' for x in ast.walk(t)):
+                continue
+            found = True
+            cmp_ = None
+            for x in ast.walk(t):
+                if isinstance(x, ast.Compare) and any(dotted(y) == 'self.decreasing' for y in ast.walk(x)):
+                    cmp_ = x
+            ok = False
+            if cmp_ is not None and len(cmp_.ops) == 1:
+                l, r, op = cmp_.left, cmp_.comparators[0], cmp_.ops[0]
+                if dotted(r) == 'self.decreasing' and isinstance(op, (ast.Lt, ast.LtE)):
+                    expr = l
+                elif dotted(l) == 'self.decreasing' and isinstance(op, (ast.Gt, ast.GtE)):
+                    expr = r
+                else:
+                    expr = None
+                if expr is not None:
+                    num = expr.left if isinstance(expr, ast.BinOp) and isinstance(expr.op, ast.Div) else expr
+                    pp = parities(num, lambda y: dotted(y) == prev)
+                    pc = parities(num, lambda y: dotted(y) == cur and not isinstance(y, ast.Store))
+                    ok = pp == {0} and pc == {1}
+                # the true branch must be the incrementing one
+                neg = 0
+                tt = t
+                while isinstance(tt, ast.UnaryOp) and isinstance(tt.op, ast.Not):
+                    neg, tt = neg + 1, tt.operand
+                branch = n.body if neg % 2 == 0 else n.orelse
+                inc = any(_incr_amount(st, 'patience_count') == 1 for st in branch)
+                ok = ok and inc
+            res.inst({'function': h.fq, 'clause': src(t)[:70], 'previous_minus_current_below_threshold_increments': ok}, cls_ + 'imp')
+            if not ok:
+                res.add(Finding('C20.CLAUSE', h, 'patience test `%s`: the counter must grow when (previous - current) loss is below self.decreasing' % src(t)[:70],
+                                node=n.test))
+        if not found:
+            res.add(Finding('C20.CLAUSE', h, '%s.step has no test against self.decreasing' % cls_, construct='decreasing missing'))
+    return res
+
+
 def rules(repo, tier):
-    return [rule_latch(repo, tier), rule_reset(repo, tier), rule_budget(repo, tier), rule_pat(repo, tier), rule_drv(repo, tier)]
+    return [rule_latch(repo, tier), rule_reset(repo, tier), rule_budget(repo, tier), rule_pat(repo, tier), rule_drv(repo, tier),
+            rule_clause(repo, tier)]
